@@ -11,7 +11,7 @@ import random, json, sys
 
 POLICIES = ["after_entry", "after_exit", "after_action", "before_transition"]
 
-def make(seed):
+def make(seed, ext=False):
     r = random.Random(seed * 7907 + 13)
     nev = r.randint(3, 5)
     events = ["E%d" % i for i in range(1, nev + 1)]
@@ -156,9 +156,41 @@ def make(seed):
                 m["table"].append("%s %s %sI%s%s" % (r.choice(sr), r.choice(events), pre, guard(), acts()))
                 for e in ends:
                     m["table"].append("%sI %s %s%s" % (pre, e, r.choice(sr), acts()))
+    if ext:
+        # second generation of features (names randx<seed>): drawn from a stream of their own, so that rand<seed> stays what it was.
+        # machine-level internal transition tables, Defer actions and base-class triggers
+        x = random.Random(seed * 131 + 7)
+        for mn in names:
+            m = machines[mn]
+            # (not for events that also trigger an explicit entry / entry point of this machine: such chains do not compile everywhere)
+            # nor for events a state of this machine defers: deferring and handling the same event in one configuration makes back
+            # re-offer it for ever (outside the quantifier of C05)
+            dfr = set(e for st in m["states"].values() for e in st.get("defers", []))
+            free = [e for e in events if e not in dfr and not any(t.split()[1] == e and ("." in t.split()[2] or ":" in t.split()[2]) for t in m["table"])]
+            if free and x.random() < 0.35:
+                m["itable"] = ["%s%s%s" % (x.choice(free), guard() or " [%s]" % newg(), acts() or " / %s" % newa()) for _ in range(x.randint(1, 2))]
+        if single and x.random() < 0.6:
+            mn = x.choice(names); m = machines[mn]
+            srcs = sorted(set(t.split()[0] for t in m["table"] if t.split()[0] not in names and "!" not in t.split()[0]
+                              and m["states"].get(t.split()[0], {}).get("kind", "simple") == "simple"))
+            evs = [e for e in events if not any(it.split()[0] == e for it in m.get("itable", []))]
+            if srcs and evs:
+                m["table"].append("%s %s - [%s] / defer" % (x.choice(srcs), x.choice(evs), newg()))
+        pseudo = any(st.get("kind") in ("explicit", "entrypt", "exitpt") for m in machines.values() for st in m["states"].values())
+        if x.random() < 0.5 and nev >= 3 and not pseudo:
+            # E2 derives from E1, E3 from E2: rows on E1 also react to E2 and E3 occurrences (not with backmp11 favor_compile_time)
+            evd = {e: {} for e in events}; evd["E2"] = {"base": "E1"}
+            if x.random() < 0.5: evd["E3"] = {"base": "E2"}
+            # (the function_pointer_array strategy and favor_compile_time do not offer base-class triggers)
+            jx = {"name": "randx%d" % seed, "root": "Top", "events": evd, "machines": machines, "configs": ["back", "mp11"]}
+            if flags: jx["flags"] = flags
+            return jx
+        jx = {"name": "randx%d" % seed, "root": "Top", "events": {e: {} for e in events}, "machines": machines}
+        if flags: jx["flags"] = flags
+        return jx
     j = {"name": "rand%d" % seed, "root": "Top", "events": {e: {} for e in events}, "machines": machines}
     if flags: j["flags"] = flags
     return j
 
 if __name__ == "__main__":
-    print(json.dumps(make(int(sys.argv[1])), indent=1))
+    print(json.dumps(make(int(sys.argv[1]), ext=len(sys.argv) > 2), indent=1))
